@@ -169,7 +169,7 @@ def runUpdater (u : Updater) (now : Val) (parent : Val) (field : String) (value 
     match p with
     | .doc fs =>
       (match dget field fs with
-       | none => .error .keyErr
+       | none => pure (.doc fs)          -- nothing to pop from
        | some (.arr xs) => pure (.doc (dset field (.arr (popList xs last)) fs))
        | some _ => .error .writeErr)
     | .arr xs => do
@@ -208,7 +208,8 @@ def updateSingleField (u : Updater) (now : Val) (value : Val) : List String → 
         let sub' ← updateSingleField u now value rest sub
         pure (.doc (dset part sub' fs))
       | none =>
-        if u = .unset then .ok d
+        -- `$unset` and `$pop`: "if the parent doesn't exist, so does its child" - nothing is created
+        if u = .unset || u = .pop then .ok d
         else do
           let sub' ← updateSingleField u now value rest (.doc [])
           pure (.doc (dset part sub' fs))
@@ -406,6 +407,36 @@ def pullAllValue (cur : Val) (value : Val) : R Val :=
   | .arr xs, .arr vs => .ok (.arr (xs.filter (fun o => !pyIn o vs)))
   | _, _ => unmodelled
 
+/-- `str.isdigit()` on a path component (ASCII digits) -/
+def isDigits (s : String) : Bool := s != "" && s.toList.all Char.isDigit
+
+/-- the `$pullAll` edit behind `_get_subdocument(…, create_missing=False)`: `parent` is the
+    container of the last component.  A sub-document: the field, when it is there.  An array with a
+    last component made of digits: the item at that index, when it is there (the array to pull
+    from is an item of an array).  Anything else - a scalar, null, a string, an array with another
+    last component - holds nothing to pull from. -/
+def pullAllAt (value : Val) (parent : Val) (last : String) : R Val :=
+  match parent with
+  | .doc ps =>
+    (match dget last ps with
+     | some cur => do
+       let r ← pullAllValue cur value
+       pure (.doc (dset last r ps))
+     | none => .ok parent)
+  | .arr xs =>
+    if isDigits last then
+      match pyInt? last with
+      | some i =>
+        if i < 0 then .ok parent       -- (digits only: never negative)
+        else match xs[i.toNat]? with
+          | some cur => do
+            let r ← pullAllValue cur value
+            pure (.arr (xs.set i.toNat r))
+          | none => .ok parent
+      | none => unmodelled
+    else .ok parent
+  | _ => .ok parent
+
 def pullAllField (spec : Val) (d : Val) (field : String) (value : Val) : R Val :=
   if hasDollarPart field then unmodelled
   else if !keyOk field then unmodelled
@@ -417,19 +448,7 @@ def pullAllField (spec : Val) (d : Val) (field : String) (value : Val) : R Val :
          let r ← pullAllValue cur value
          pure (.doc (dset f r fs))
        | none => .ok d)
-    | parts, _ =>
-      withSubdoc (fun parent last =>
-        match parent with
-        | .doc ps =>
-          (match dget last ps with
-           | some cur => do
-             let r ← pullAllValue cur value
-             pure (.doc (dset last r ps))
-           | none => .ok parent)
-        | .arr _ => unmodelled
-        | .str p => if isInfixChars last.toList p.toList then .error .typeErr else .ok parent
-        | .null => .ok parent      -- the `subdocument is not None` guard also meets a null parent
-        | _ => .error .typeErr) false parts true spec d
+    | parts, _ => withSubdoc (pullAllAt value) false parts true spec d
 
 /-- stable insertion into a list sorted by `lt` (ties keep their order) -/
 def insertSorted (lt : Val → Val → Bool) (x : Val) : List Val → List Val
@@ -949,19 +968,6 @@ def addToSetFieldPos (spec : Val) (d : Val) (field : String) (value : Val) : R V
   else if !onePositional field then unmodelled
   else if !docsAlong (parts.takeWhile (· != "$") ++ ["$"]) d then .error .typeErr
   else withSubdocPos (addToSetAt value) true parts true spec d
-
-def pullAllAt (value : Val) (parent : Val) (last : String) : R Val :=
-  match parent with
-  | .doc ps =>
-    (match dget last ps with
-     | some cur => do
-       let r ← pullAllValue cur value
-       pure (.doc (dset last r ps))
-     | none => .ok parent)
-  | .arr _ => unmodelled
-  | .str p => if isInfixChars last.toList p.toList then .error .typeErr else .ok parent
-  | .null => .ok parent
-  | _ => .error .typeErr
 
 def pullAllFieldPos (spec : Val) (d : Val) (field : String) (value : Val) : R Val :=
   let parts := splitDots field
